@@ -1,5 +1,5 @@
 (* C14 property theorems: statements only, each closed by [exact]; Print Assumptions beneath. *)
-From VF Require Import C14.Spec C14.Model C14.Check C14.ProofsMain.
+From VF Require Import C14.Spec C14.Model C14.Check C14.ProofsIndex C14.ProofsMain.
 Local Open Scope Z_scope.
 
 (* For every content and EVERY command word, the iterator model (the function the correspondence check
@@ -27,8 +27,14 @@ Theorem C14_past_end_idempotent : forall s,
 Proof. exact past_end_idempotent. Qed.
 Theorem C14_heap_root_first : forall arr, arr <> [] -> heap_value arr 0 = zth arr 0.
 Proof. exact heap_first. Qed.
-(* NOT proved (tie only): the B-tree iterator (needs the key-order invariant: it relocates its entry by key
-   search), and that the heap iterator enumerates a permutation of the heap array. *)
+(* heap / priority-queue iterators: a cursor over their own level-sorted enumeration, which visits every element of
+   the heap array exactly once (a permutation), the root first *)
+Theorem C14_heap_cursor : forall arr cs,
+  model_run (KHeap arr) cs = map MOut (spec_run (ProofsIndex.iseq (length arr) (fun i => (i, heap_value arr i))) cs).
+Proof. exact heap_main. Qed.
+Theorem C14_heap_each_permutation : forall arr, Permutation (map snd (model_each (KHeap arr))) arr.
+Proof. exact heap_each_perm. Qed.
+(* NOT proved (tie only): the B-tree iterator (needs the key-order invariant: it relocates its entry by key search). *)
 
 Example C14_nonvacuous :
   let t := BN (BN BL 1 10 (BN BL 2 20 BL)) 5 50 (BN (BN BL 7 70 BL) 9 90 BL) in
@@ -45,3 +51,5 @@ Print Assumptions C14_treeset_cursor.
 Print Assumptions C14_each_visits_reported.
 Print Assumptions C14_past_end_idempotent.
 Print Assumptions C14_heap_root_first.
+Print Assumptions C14_heap_cursor.
+Print Assumptions C14_heap_each_permutation.
